@@ -167,6 +167,10 @@ def gen_cases(tier, seed):
                     cases.append(dict(kind="dense", m=m, n=n, k=k, part=part, parts=4, aggs="all", ulevel="cyc", seed=seed))
             else:
                 cases.append(dict(kind="dense", m=m, n=n, k=k, part=0, parts=1, aggs="all", ulevel="oa" if thorough and m <= 3 else "cyc", seed=seed))
+    for lo in range(0, 4 ** 8, 1024):
+        cases.append(dict(kind="special", what="imtlg-tall-integer", lo=lo, hi=min(4 ** 8, lo + 1024)))
+    for k in range(3):
+        cases.append(dict(kind="special", what="native-seed", k=k))
     return cases
 
 
@@ -381,6 +385,82 @@ def run_case(case):
     elif kind == "dense":
         J = dense_matrix(case["seed"], case["m"], case["n"], case["k"])
         run_direct(J, configs(case["m"], case["n"], case["aggs"], case["ulevel"], closed=False), ctx, case["part"], case["parts"])
+    elif kind == "special":
+        run_special(case, ctx)
     else:
         raise ValueError(kind)
     return ctx.result()
+
+
+def run_special(case, ctx):
+    """Families added after seeded changes were missed (DESIGN 7.4)."""
+    import itertools
+    import math
+
+    import numpy as np
+    import torch
+    from torchjd import aggregation as T
+
+    what = case["what"]
+    if what == "imtlg-tall-integer":
+        # IMTL-G on ALL {-1,0,1,2} 4x2 matrices without a zero row: the Gramian is singular (4 rows, rank <= 2) and exactly
+        # representable; all 24 row permutations. (A factorisation-based solve instead of the pseudo-inverse depends on the
+        # row order here, and only on integer matrices of this size.)
+        agg = T.IMTLG()
+        for idx in range(case["lo"], case["hi"]):
+            J = A.ternary_index(4, 2, idx, entries=(-1, 0, 1, 2))
+            rows = [tuple(r) for r in J.tolist()]
+            if rows != sorted(rows):
+                continue  # one representative per row-permutation orbit: all 24 permutations of it are compared below
+            if not np.abs(J).sum(axis=1).all() or not K.imtlg_wellposed(J) or not K.rank_unambiguous(J):
+                ctx.dropped += 1
+                continue
+            s = A.sigma_max(J)
+            ctx.execs += 1
+            x = agg(torch.tensor(J, dtype=torch.float64)).numpy()
+            for perm in itertools.permutations(range(4)):
+                if perm == (0, 1, 2, 3):
+                    continue
+                ctx.execs += 1
+                try:
+                    y = agg(torch.tensor(J[list(perm)], dtype=torch.float64)).numpy()
+                except Exception as e:
+                    ctx.viol.append(dict(sig=f"exception:IMTLG:{type(e).__name__}", msg=f"IMTLG J={J[list(perm)].tolist()}: {e!r}"[:300]))
+                    continue
+                ctx.compare("special:imtlg-tall-integer", float(np.abs(y - x).max()), 1e-9 * s, "rowperm:IMTLG:tall-integer",
+                            lambda: f"IMTLG J={J.tolist()} pi={list(perm)}: A(pi J)={y.tolist()} A(J)={x.tolist()}")
+            ctx.nontrivial += 1
+            ctx.outcomes.add("it:" + digest(np.round(x, 6).tolist()))
+    else:  # native-seed: the SAME instance, torch.manual_seed before every call (no replayed draws): rows permuted together with the leak
+        mats = [np.array([[1.0, -2.0, 0.5], [-1.0, 1.0, 2.0], [0.5, 0.5, -1.0]]), np.array([[1.0, 0.0], [-1.0, 1.0], [-0.5, -2.0], [0.25, -1.0]]),
+                np.array([[2.0, -1.0], [-1.0, 0.5], [-1.0, -1.0]])]
+        J = mats[case["k"]]
+        m = J.shape[0]
+        s = A.sigma_max(J)
+        leak = torch.tensor([(i + 1) / (m + 1) for i in range(m)], dtype=torch.float64)
+        for name, agg, leaked in (("GradDrop", T.GradDrop(), None), ("GradDrop|leak", None, leak)):
+            for seed_ in range(6):
+                inst = {}  # one instance per permuted leak vector, reused across the seeds
+
+                def run(rows):
+                    key = tuple(rows)
+                    if key not in inst:
+                        inst[key] = T.GradDrop() if leaked is None else T.GradDrop(leak=leaked[list(rows)])
+                    outs = []
+                    for _ in range(2):  # twice: the second call of an instance must behave like the first under the same seed
+                        torch.manual_seed(seed_)
+                        ctx.execs += 1
+                        outs.append(inst[key](torch.tensor(J[list(rows)], dtype=torch.float64)).numpy())
+                    return outs
+
+                base = run(range(m))
+                if float(np.abs(base[0] - base[1]).max()) > 0:
+                    ctx.viol.append(dict(sig=f"seed-not-honoured-on-reuse:{name}", msg=f"{name} J={J.tolist()} manual_seed({seed_}) twice on one instance: {base[0].tolist()} vs {base[1].tolist()}"))
+                    continue
+                for perm in itertools.permutations(range(m)):
+                    got = run(perm)
+                    for g in got:
+                        ctx.compare(f"special:native-seed:{name}", float(np.abs(g - base[0]).max()), 1e-9 * s, f"rowperm:{name}:native-seed",
+                                    lambda: f"{name} J={J.tolist()} pi={list(perm)} manual_seed({seed_}): {g.tolist()} vs {base[0].tolist()}")
+            ctx.nontrivial += 1
+            ctx.outcomes.add(f"ns:{name}:{case['k']}")
